@@ -143,6 +143,12 @@ var transferN int
 // through the ROI endpoints (typ "roi": every span is a datum with an empty value), then a version-limited
 // migration of a random ascending subset of one root-to-leaf lineage.
 func runTransfer(run *lib.Run, seed uint64, typ string) {
+	// mode: 0 = uuid list (copyVersions), 1 = transmit=all, 2 = transmit=flatten (both copyData with the
+	// instance itself as destination instance, on another store)
+	mode := int(seed % 5)
+	if mode > 2 {
+		mode = 0
+	}
 	openDst()
 	rng := lib.NewRand(seed*2654435761 + 17)
 	transferN++
@@ -262,6 +268,12 @@ func runTransfer(run *lib.Run, seed uint64, typ string) {
 	if len(pick) == 0 {
 		pick = []int{lineage[len(lineage)-1]}
 	}
+	if mode == 1 {
+		pick = lineage // every version of the lineage is read back
+	}
+	if mode == 2 {
+		pick = pick[len(pick)-1:]
+	}
 	vid := func(i int) int {
 		v, _ := datastore.VersionFromUUID(dvid.UUID(uuids[i]))
 		return int(v)
@@ -288,11 +300,15 @@ func runTransfer(run *lib.Run, seed uint64, typ string) {
 		before[i] = m
 	}
 	cfg := dvid.NewConfig()
-	cfg.Set("transmit", strings.Join(tuu, ","))
+	cfg.Set("transmit", []string{strings.Join(tuu, ","), "all", "flatten"}[mode])
+	migrateAt := root
+	if mode == 2 {
+		migrateAt = tuu[0]
+	}
 	done := make(chan bool, 1)
 	var merr error
 	p, msg := lib.Recover(func() {
-		merr = datastore.MigrateInstance(dvid.UUID(root), dvid.InstanceName(name), srcStore, dstStore, cfg, done)
+		merr = datastore.MigrateInstance(dvid.UUID(migrateAt), dvid.InstanceName(name), srcStore, dstStore, cfg, done)
 	})
 	if p {
 		merr = fmt.Errorf("panic: %s", msg)
@@ -344,8 +360,8 @@ func runTransfer(run *lib.Run, seed uint64, typ string) {
 		}
 		data = append(data, fmt.Sprintf("(%s,%s,[%s])", coqEnts(src[tk]), coqEnts(dst[tk]), strings.Join(reads, ";")))
 	}
-	term := fmt.Sprintf("CTransfer %s [%s]%%nat [%s]%%nat [%s]", lib.CoqBool(srcChanged), strings.Join(path, ";"), strings.Join(ts, ";"), strings.Join(data, ";"))
-	run.Count("transfer:" + typ)
+	term := fmt.Sprintf("CTransfer %d%%nat %s [%s]%%nat [%s]%%nat [%s]", mode, lib.CoqBool(srcChanged), strings.Join(path, ";"), strings.Join(ts, ";"), strings.Join(data, ";"))
+	run.Count("transfer:" + typ + "/" + []string{"uuid-list", "all", "flatten"}[mode])
 	run.Count(fmt.Sprintf("transfer-versions:%d/transmitted:%d", nv, len(pick)))
 	run.Add("transfer", term, transferCase{Kind: "transfer", Typ: typ, Seed: seed}, fmt.Sprintf("transfer/%s/%d", typ, seed))
 }
